@@ -559,7 +559,17 @@ func bundleKeys(ctx context.Context, b *Bundle, size uint32, db kvStore, logger 
 		// NOTE: this section issues a GET on remote store for this key and has been seen as the
 		// limiting factor on the throughput of the index building job.
 		// By skipping it on already existing root keys, we shall call this about 2.5x less often.
-		leaves, err := cafs.LeavesForHash(b.BlobStore(), root, size, "")
+		var leaves []cafs.Key
+		err = backoff.Retry(func() error {
+			// a transient failure to read the root blob must not be mistaken for a corrupted root key:
+			// the leaves would be left out of the index and removed by delete-unused
+			var erl error
+			leaves, erl = cafs.LeavesForHash(b.BlobStore(), root, size, "")
+
+			return erl
+		},
+			backoff.WithContext(defaultBackoff(), ctx),
+		)
 		if err != nil {
 			// The root key is somehow corrupted. This might happen with objects created with previous versions of datamon:
 			// ignore the leaves and just return the root key.
